@@ -7,6 +7,14 @@ CHECKS = {
             "the helpers are value-oblivious index/set maps, so the small scope contains every branch.",
             "Trusted: reference semantics in mc/props/C17.py; integer rows only; larger shapes/rows not explored.",
             TECH_PRODUCT, "DESIGN.md §6 C17"),
+    "C01": ("Every conversion between representations is executed for every holder of every array in the stated "
+            "small scope (all zero patterns for <= 6 cells, all stored orders for <= 3/4 nonzeros, every ordered "
+            "partition of the modes into row and column modes incl. empty sides and the fc/bc/t conventions, Kruskal "
+            "ranks 1-3 x weight sign patterns, Tucker cores dense and sparse, sums of mixed parts) and the result is "
+            "compared entry for entry with the explicit index formula; conversions are value-oblivious index maps, so "
+            "shape x zero pattern x stored order determines the execution path.",
+            "Trusted: mc/refmodel.py (matricization formula, Kruskal/Tucker value by einsum); arrays <= 24 cells, order <= 5.",
+            TECH_PRODUCT, "DESIGN.md §6 C01"),
 }
 PENDING = {f"C{i:02d}": "check not built yet in this phase (planned, see DESIGN.md §6)" for i in range(1, 21) if f"C{i:02d}" not in CHECKS}
 NOT_APPLICABLE = {}
